@@ -199,7 +199,9 @@ def run(ctx: Ctx) -> None:
     pt = prog.func(MEM, "MembershipProtocol._handle_probe_tick")
     pff = ctx.flow(pt)
     calls = [x for x in calls_in(pt.node) if path_of(x.func) == "self._suspect_member"]
-    ok = len(calls) == 1 and pff.holds_at(node_of(pff.cfg, calls[0]), Fact("falsy", "info.detector.is_available(now_s)"))
+    # the member handed to _suspect_member is the one whose own detector was asked (whatever the loop variable is called)
+    who = path_of(calls[0].args[0]) if len(calls) == 1 and calls[0].args else None
+    ok = who is not None and pff.holds_at(node_of(pff.cfg, calls[0]), Fact("falsy", f"{who}.detector.is_available(now_s)"))
     ctx.ob("C13-3", "G1", pt, calls[0] if calls else None, ok, "a member is suspected locally only when its failure detector reports it unavailable")
     for q in ("MembershipProtocol._handle_ping", "MembershipProtocol._handle_ack"):
         fn = prog.func(MEM, q)
